@@ -158,10 +158,10 @@ RouteFamily(route) ==
                   \* *_rt: the unit keyword is a string made at run time; nudged_* / twin_*: a cell differing in the 7th digit was
                   \* used first (and re-specified in place, or left alone next to a second object)
                   "params_rad_rt", "params_deg_rt", "triclinic_rad_rt", "nudged_vectors", "nudged_params",
-                  "twin_vectors", "twin_params"} -> "triclinic"
+                  "twin_vectors", "twin_params", "vectors_fortran", "vectors_colT"} -> "triclinic"
     [] OTHER -> "unknown"
 (* routes that go through set_lengths_and_angles (lower triangular embedding) *)
-ParamsRoute(route) == route \notin {"vectors", "respec_vectors", "nudged_vectors", "twin_vectors", "cubic", "orthorhombic", "orthorhombic_deg", "unique_cubic", "unique_orthorhombic"}
+ParamsRoute(route) == route \notin {"vectors", "respec_vectors", "nudged_vectors", "twin_vectors", "vectors_fortran", "vectors_colT", "cubic", "orthorhombic", "orthorhombic_deg", "unique_cubic", "unique_orthorhombic"}
 
 (* ---- BigInt 3x3 (observed matrices, entries scaled by 2^K) ---------------- *)
 B3Mul(A, B) == [i \in Ix |-> [j \in Ix |->
